@@ -15,6 +15,15 @@ CHECKS = {
         "takes (cfg-guarded hook) must be accepted by the specification's actions with the operands the specification predicts.",
    note="SHA-256 compression as a free constructor; own compression function in the harness; TLC; leaf counts beyond the "
         "model bound are sampled against the harness's own definitional tree."),
+ "C19": dict(
+   cat="model_checking", design="§4 C19",
+   technique="TLA+ model of parameter sets and header roots as hash expressions, TLC-checked state machine of compaction steps; "
+             "TLC-emitted cases replayed with an independent hash-expression evaluator; recorded compaction sessions trace-validated",
+   text="TLC checks on the model that compaction steps in any order keep every root, that the two root code paths denote the same "
+        "expression and that the root commits to every field; every abstract parameter set / header pair TLC enumerates is replayed "
+        "on real values (roots, into_compact, elided_root, header root compared with the expression evaluated by the harness's own "
+        "SHA-256), and recorded sessions of the real API are validated against the specification's actions.",
+   note="hash functions are free constructors in the model; own SHA-256 in the harness; random field contents per length class."),
 }
 NA_PENDING = "check not built yet in this round (planned, see DESIGN.md §4)"
 
